@@ -1,6 +1,6 @@
 /-
   JS.Proofs.TieCompose — composition of the source-tie theorems (TieA/TieB/TieC/TieD for the first subset,
-  Tie2J/Tie2K for the second: anyOf, oneOf, properties_draft3, type_draft3): on every schema of
+  Tie2J/Tie2K/Tie2M for the second: anyOf, oneOf, properties_draft3, type_draft3, ref): on every schema of
   the shape the draft's metaschema prescribes, the evaluator over the interpreted source
   (`JS.Py.evalSrc`) and the model's evaluator (`JS.eval`) are the same function.
 
@@ -19,6 +19,7 @@ import JS.Proofs.TieC
 import JS.Proofs.TieD
 import JS.Proofs.Tie2J
 import JS.Proofs.Tie2K
+import JS.Proofs.Tie2M
 import JS.Props.C03
 namespace JS.Tie
 open JS JS.Py JS.Generated.Source JS.NoCrash JS.Spec
@@ -66,7 +67,8 @@ theorem applyKwSrc_eq_applyKw (env : Env) (impl : FmtImpl) (d : Draft) (fc : Opt
     (inst : Json) (kvs : List (Str × Json)) :
     applyKwSrc env impl (d.cfg fc) rec f v inst (.obj kvs) = applyKw env impl (d.cfg fc) rec f v inst (.obj kvs) := by
   cases f <;> simp only [NoCrash.expected] at hb
-  case ref => exact applyKwSrc_unsupported (w := _) (w2 := _) rfl rfl rfl rfl ..
+  case ref =>
+    rw [applyKwSrc_body2 (w := _) (b := _) rfl rfl rfl rfl]; exact tie2_ref ..
   case additionalProperties => exact applyKwSrc_unsupported (w := _) (w2 := _) rfl rfl rfl rfl ..
   case multipleOf => exact applyKwSrc_unsupported (w := _) (w2 := _) rfl rfl rfl rfl ..
   case format => exact applyKwSrc_unsupported (w := _) (w2 := _) rfl rfl rfl rfl ..
@@ -167,7 +169,8 @@ theorem evalStepSrc_eq_evalStep_N (env : Env) (impl : FmtImpl) (d : Draft) (fc :
       dsimp only
       rw [ref_bound]
       dsimp only
-      rw [applyKwSrc_unsupported (f := .ref) (w := _) (w2 := _) rfl rfl rfl rfl]
+      rw [applyKwSrc_body2 (f := .ref) (w := _) (b := _) rfl rfl rfl rfl, tie2_ref]
+      rfl
     | none =>
       rw [show ks "$ref" = skey "$ref" from rfl, hl] at hbody
       dsimp only at hbody
